@@ -133,7 +133,7 @@ def mutate(rng, t, stats):
     kinds = ["wrong_type_info_key", "missing_info_key", "wrong_type_top", "length_edge", "piece_length_edge",
              "pieces_len", "name_bad", "unordered", "dup_key", "meta_flag", "huge_wrap", "announce_bad"]
     if files is not None:
-        kinds += ["path_bad", "path_bad", "path_dup", "path_prefix", "file_wrong_type", "file_missing", "sum_overflow", "files_shape", "both_length_files"]
+        kinds += ["path_bad", "path_bad", "path_dup", "path_prefix", "path_prefix_sibling", "path_prefix_sibling", "file_wrong_type", "file_missing", "sum_overflow", "files_shape", "both_length_files"]
     kind = rng.choice(kinds)
     stats["mut:" + kind] = stats.get("mut:" + kind, 0) + 1
     unordered = False
@@ -237,6 +237,30 @@ def mutate(rng, t, stats):
         else:
             q = p[:1] + [rng.choice(GOOD_COMPS), rng.choice(GOOD_COMPS)]
         fs.insert(rng.randrange(len(fs) + 1), M({"length": rng.choice([0, 3]), "path": q}))
+    elif kind == "path_prefix_sibling":
+        # a file P, a file below it P/x, and a SIBLING whose name is P followed by a byte below '/'
+        # (0x2f): in any order that compares '/'-joined strings instead of component lists the
+        # sibling sorts between the colliding pair. The pair is kept non-adjacent in file order
+        # (adjacent ones are also caught by verify_file_list).
+        if not isinstance(mget(fs[i], "path"), list) or not mget(fs[i], "path"):
+            raise TypeError("path already mutated")
+        p = list(mget(fs[i], "path"))
+        sib_suffix = rng.choice([b"-b", b" b", b".txt", b"!", b"+1", b"-", b" ", b".", b"\x01", b"#", b",", b"-b/"[:2]])
+        sib = p[:-1] + [p[-1] + sib_suffix]
+        below = p + [rng.choice(GOOD_COMPS)] + ([rng.choice(GOOD_COMPS)] if rng.random() < 0.3 else [])
+        extra = [M({"length": rng.choice([0, 1, 7]), "path": sib}), M({"length": rng.choice([0, 1, 7]), "path": below})]
+        if rng.random() < 0.3:
+            extra.append(M({"length": 1, "path": p[:-1] + [p[-1] + rng.choice([b"0", b"a", b"~"])]}))   # a sibling sorting AFTER
+        order = rng.choice(["after", "around", "front", "shuffle"])
+        if order == "after":
+            fs = fs[:i + 1] + extra + fs[i + 1:]
+        elif order == "around":
+            fs = fs[:i] + [extra[1]] + fs[i + 1:] + [extra[0], fs[i]] + extra[2:]
+        elif order == "front":
+            fs = [extra[1], extra[0]] + fs + extra[2:]
+        else:
+            fs = fs + extra
+            rng.shuffle(fs)
     elif kind == "file_wrong_type":
         if rng.random() < 0.3:
             fs[i] = rng.choice(WRONG_TYPES)
@@ -477,6 +501,21 @@ def hand_cases():
     out.append(T(multi([(1, [b"a", b"b"]), (1, [b"z"]), (1, [b"a"])])))
     out.append(T(multi([(1, [b"a", b"b"]), (1, [b"a-"]), (1, [b"a"])])))       # 'a-' sorts between as strings
     out.append(T(multi([(1, [b"a", b"b"]), (1, [b"a", b"b", b"c"])])))
+    # file/directory collision with a sibling that sorts between them as '/'-joined strings
+    for sib in [b"a-b", b"a b", b"a.txt", b"a!", b"a+1", b"a-", b"a.", b"a\x01"]:
+        out.append(T(multi([(1, [b"a"]), (1, [sib]), (1, [b"a", b"c"])])))
+        out.append(T(multi([(1, [b"a", b"c"]), (1, [sib]), (1, [b"a"])])))
+        out.append(T(multi([(1, [b"d", b"a"]), (1, [b"z"]), (1, [b"d", sib]), (1, [b"d", b"a", b"c", b"e"])])))
+        out.append(T(multi([(1, [b"a"]), (1, [sib]), (1, [b"a0"])])))          # no collision: must load
+    # hostile names of MULTI-file torrents (root directory = <root>/<name>)
+    for nm in [b"../escaped", b"..", b".", b"", b"a/b", b"/abs", b"a\x00b", b"../../x", b"x/../../y"]:
+        out.append(T(multi([(1, [b"a"]), (2, [b"b", b"c"])], name=nm)))
+    # piece-count boundary: ceil = 2^32 but floor = 2^32 - 1
+    for pl in (2048, 1025, PL_MAX):
+        for total in ((2**32 - 1) * pl + 1, 2**32 * pl - 1, 2**32 * pl - pl + 1, (2**32 - 1) * pl):
+            if total <= I64MAX:
+                out.append(T(single(total, pl, b"")))
+                out.append(T(multi([(total - 5, [b"a"]), (5, [b"b"])], pl=pl, pieces=b"")))
     out.append(T(multi([(1, [b"a", b"b"]), (1, [b"a", b"c"]), (1, [b"b"])])))
     out.append(T(multi([(0, [b"a"]), (0, [b"b"])])))
     out.append(T(multi([(0, [b"a"]), (1, [b"b"])])))
